@@ -542,12 +542,9 @@ Reopen(e) ==
         untouched == \A c2 \in Colls, k2 \in Keys : same(c2, k2)
         opened == e.openerr = ""
         Fr(ok, what, exp, got) == IF ok THEN 0 ELSE IF PrintT(<<"FAIL", {"C10"}, e.tr, e.i, e.mode, inf.op, what, exp, got>>) THEN 1 ELSE 1
-        \* CAS values handed out by the regular write API are at most hw; a caller-chosen (WithMeta) CAS may lie above
-        \* the marks, which later regular writes legitimately set below it
-        hw == IF applied /\ inf.op \notin {"SetWithMeta", "DeleteWithMeta"} /\ seen(c, k).cas # pre.cas /\ seen(c, k).cas > clock
-              THEN seen(c, k).cas ELSE clock
-        maxCas(c2) == LET s == {seen(c2, k2).cas : k2 \in Keys} \cap 0..hw IN
-                      IF s = {} THEN 0 ELSE CHOOSE m \in s : \A x \in s : x <= m
+        \* the marks cover every document, whichever way its CAS was chosen (the clock learns of a caller-chosen CAS
+        \* above the marks, so later regular writes - which set the marks to their own CAS - lie above it too)
+        maxCas(c2) == LET s == {seen(c2, k2).cas : k2 \in Keys} IN CHOOSE m \in s : \A x \in s : x <= m
         fOpen == Fr(opened, <<"reopen-failed", e.site>>, "opens", e.openerr)
         fAtomic == IF ~opened THEN 0 ELSE
                    Fr(untouched \/ applied \/ purgeApplied, <<"not-all-or-nothing", e.site, Class(pre)>>,
